@@ -11,9 +11,9 @@
 pub mod cases;
 pub mod simrng;
 
-use crate::core::{catch, Caught, Ctx, Tier, World, WorldInfo};
-use crate::ev;
-use crate::rng::Rng;
+use simcore::core::{catch, Caught, Ctx, Tier, World, WorldInfo};
+use simcore::ev;
+use simcore::rng::Rng;
 use cases::{all_cases, CaseDesc, DistKind, Ends, Kind, Request, Sample};
 use serde::{Deserialize, Serialize};
 use simrng::{Entropy, SimRng, Word};
@@ -423,7 +423,7 @@ impl World for C19 {
             }
         }
         if let Entropy::Scripted { words } = &plan.entropy {
-            for w in crate::core::shrink_list(words) {
+            for w in simcore::core::shrink_list(words) {
                 if !w.is_empty() {
                     out.push(Plan { entropy: Entropy::Scripted { words: w }, ..plan.clone() });
                 }
@@ -761,7 +761,7 @@ fn execute(c: &'static CaseDesc, plan: &Plan, ctx: &mut Ctx<'_>) {
 
     let mut first_bad: Option<(usize, &'static str, usize, String, [f64; 4])> = None;
     let mut drawn = 0usize;
-    let mut hasher = crate::rng::Fnv::default();
+    let mut hasher = simcore::rng::Fnv::default();
     let mut pending: Vec<Sample> = Vec::with_capacity(plan.samples as usize);
     // The sampler runs to completion under catch_unwind; samples are judged afterwards,
     // in order, against the end points it really received.
